@@ -96,4 +96,11 @@ class HH(Channel):
 
 
 def _vtrap(x, y):
-    return x / (save_exp(x / y) - 1.0)
+    # The singularity at x = 0 is removable, x / (exp(x / y) - 1) -> y - x / 2.
+    # Without this, a voltage of exactly -40 mV or -55 mV made the gates NaN. The
+    # double-where keeps the unused branch (and its gradient) finite.
+    near_zero = jnp.abs(x / y) < 1e-6
+    x_safe = jnp.where(near_zero, 1.0, x)
+    return jnp.where(
+        near_zero, y - x / 2.0, x_safe / (save_exp(x_safe / y) - 1.0)
+    )
